@@ -757,12 +757,8 @@ theorem receivedAck_flight {s : State} {env : Env} {ranges : List Range} {lvl : 
         by_cases hle : top.2 > sp.largestSent
         · simp only [hle, if_true]; right; simp [AckFail]
         · simp only [hle, if_false]
-          generalize hs1 : (if s.isClient ∧ (!s.peerCompleted) = true ∧ (lvl = .handshake ∨ lvl = .oneRTT)
-              then ({ s with peerCompleted := true } : State).setTimer env now else s) = s1
-          have e1 : s1.initial = s.initial := by subst hs1; split <;> rfl
-          have e2 : s1.handshake = s.handshake := by subst hs1; split <;> rfl
-          have e3 : s1.app = s.app := by subst hs1; split <;> rfl
-          have e4 : s1.bytesInFlight = s.bytesInFlight := by subst hs1; split <;> rfl
+          obtain ⟨e1, e2, e3, e4, _⟩ := completeValidation_spec s env lvl now
+          generalize s.completeValidation env lvl now = s1 at e1 e2 e3 e4 ⊢
           have fi1 : FInv s1 := ⟨FOK_eq e1 e2 e3 fi.1, by rw [e4, total_eq e1 e2 e3]; exact fi.2⟩
           have hg' : s1.getSpace lvl = some sp := by rw [getSpace_congr e1 e2 e3]; exact hg
           exact ackCore_flight fi1 hg'
